@@ -276,7 +276,7 @@ def main():
         run.run_shards("rv.props.c11", timeout=3400)
         return run.finish(require=("histories", "confirmations_matched", "indications_checked", "equal_invoke_ids_from_different_peers"))
     rng = run.rng("c11")
-    n = (2400 if thorough else 300) // (run.shard[1] if thorough else 1) + 1
+    n = (32000 if thorough else 300) // (run.shard[1] if thorough else 1) + 1
     for i in range(n):
         nclients = rng.choice([1, 1, 2, 3])
         nservers = rng.choice([1, 1, 2, 4])
